@@ -230,26 +230,38 @@ def run_driver(model, lines, timeout=600):
 
 
 def correspond(model, results):
-    """Runs all cases' lines through the model driver in one process ('reset' between cases) and
-    returns the list of (case_index, line_index, op, impl, model) disagreements."""
-    lines = []
-    spans = []
-    for r in results:
-        start = len(lines)
-        lines.append("reset")
-        lines.extend(r.lines)
-        spans.append((start, len(lines)))
-    out = run_driver(model, lines) if lines else []
-    if len(out) != len(lines):
-        raise RuntimeError(f"driver produced {len(out)} lines for {len(lines)} operations")
+    """Runs all cases' lines through the model driver ('reset' between cases; one driver process per
+    model — a case may name another model in `info["model"]`) and returns the list of
+    (case_index, line_index, op, impl, model) disagreements."""
+    groups = {}
+    for ci, r in enumerate(results):
+        groups.setdefault(r.info.get("model", model), []).append(ci)
     diffs = []
-    for ci, (r, (a, b)) in enumerate(zip(results, spans)):
-        got = out[a + 1:b]
-        for li, (op, e, g) in enumerate(zip(r.lines, r.expect, got)):
-            if e != g:
-                diffs.append(dict(case=ci, line=li, op=op, impl=e, model=g))
-                break
-    return diffs, len(lines)
+    total = 0
+    for mdl, idxs in groups.items():
+        lines = []
+        spans = []
+        for ci in idxs:
+            r = results[ci]
+            start = len(lines)
+            lines.append("reset")
+            lines.extend(r.lines)
+            spans.append((start, len(lines)))
+        if len(lines) == len(idxs):
+            continue            # no operation lines at all for this model
+        out = run_driver(mdl, lines)
+        if len(out) != len(lines):
+            raise RuntimeError(f"driver {mdl} produced {len(out)} lines for {len(lines)} operations")
+        total += len(lines)
+        for ci, (a, b) in zip(idxs, spans):
+            r = results[ci]
+            got = out[a + 1:b]
+            for li, (op, e, g) in enumerate(zip(r.lines, r.expect, got)):
+                if e != g:
+                    diffs.append(dict(case=ci, line=li, op=op, impl=e, model=g))
+                    break
+    diffs.sort(key=lambda d: d["case"])
+    return diffs, total
 
 
 # ---------------------------------------------------------------------------
@@ -387,7 +399,7 @@ def run_check(mod, tier="quick", seed=0, replay=None):
     for r in results:
         for t in r.tags:
             tags[t] = tags.get(t, 0) + 1
-    distinct = len({json.dumps(r.expect) for r in results if r.nontrivial})
+    distinct = len({json.dumps(r.info.get("trace", r.expect), default=str) for r in results if r.nontrivial})
     ev = {
         "property_id": pid,
         "tier": tier,
@@ -471,7 +483,7 @@ def run_replay(mod, path):
     r = mod.run_case(case)
     log("case:", json.dumps(case, default=str)[:2000])
     try:
-        out = run_driver(getattr(mod, "MODEL", mod.ID), ["reset"] + r.lines)[1:]
+        out = run_driver(r.info.get("model", getattr(mod, "MODEL", mod.ID)), ["reset"] + r.lines)[1:]
     except Exception as e:
         out = ["<driver unavailable: %s>" % e] * len(r.lines)
     for op, e, g in zip(r.lines, r.expect, out):
